@@ -1,16 +1,79 @@
 (* Correspondence glue: the observations the harness makes of the Go code, the same
    observations computed from the model, and the comparisons evaluated by vm_compute on
-   the cases the harness wrote. Go strings arrive packed 7 bytes per primitive integer
-   (long literals of list N elaborate slowly). *)
+   the cases the harness wrote.
+
+   Case files are large, and elaborating a term costs time per node, so the harness
+   writes a compact "wire" form — monomorphic constructors, primitive integers for
+   pointers and indexes, Go strings packed 7 bytes per primitive integer — which is
+   converted here to the types of Model.v before the model is run. *)
 From TypeGraph Require Import Model.
 From Coq Require Export Uint63.
 From Coq Require Import ZArith.
 
-Definition ai0 : ainfo := AI [] None [] false [].
-
-Record packed := P { plen : int; pchunks : list int }.
-
+Definition nat_of_int (i : int) : nat := Z.to_nat (Uint63.to_Z i).
 Definition int_of_byte (b : N) : int := Uint63.of_Z (Z.of_N b).
+
+(* ---- wire form ---- *)
+Inductive ints := IN | IC (x : int) (r : ints).
+Inductive wstrs := SN | SC (s : bytes) (r : wstrs).
+Inductive wmeta := MN | MC (k : bytes) (vs : wstrs) (r : wmeta).
+(* attribute info: I0 nothing set; IM only a meta; IF everything
+   (hasval: Validation != nil, then req / vother are its Required and the rest) *)
+Inductive winfo :=
+| I0
+| IM (m : wmeta)
+| IF (m : wmeta) (hasval : bool) (req : wstrs) (vother desc : bytes) (docs : bool) (other : bytes).
+
+Inductive wty :=
+| Wp (p : prim)
+| Wa (i : winfo) (e : wty)
+| Wm (ki : winfo) (k : wty) (ei : winfo) (e : wty)
+| Wo (key : int) (fs : wfs)
+| Wu (n : bytes) (fs : wfs)
+| Wr (id : int)
+with wfs := FN | FC (n : bytes) (i : winfo) (t : wty) (r : wfs).
+
+Inductive wrt := RN | RS (ident ctype : bytes) (views : ints).
+Inductive wenv := EN | EC (id : int) (name uid : bytes) (i : winfo) (t : wty) (rt : wrt) (r : wenv).
+
+Fixpoint strs_of (w : wstrs) : list bytes := match w with SN => [] | SC s r => s :: strs_of r end.
+Fixpoint meta_of (w : wmeta) : meta := match w with MN => [] | MC k vs r => (k, strs_of vs) :: meta_of r end.
+Fixpoint nats_of (w : ints) : list nat := match w with IN => [] | IC x r => nat_of_int x :: nats_of r end.
+Fixpoint ints_of (w : ints) : list int := match w with IN => [] | IC x r => x :: ints_of r end.
+
+Definition info_of (w : winfo) : ainfo :=
+  match w with
+  | I0 => AI [] None [] false []
+  | IM m => AI (meta_of m) None [] false []
+  | IF m hv req vo desc docs other =>
+    AI (meta_of m) (if hv then Some (Val (strs_of req) vo) else None) desc docs other
+  end.
+
+Fixpoint ty_of (w : wty) : ty :=
+  match w with
+  | Wp p => TPrim p
+  | Wa i e => TArr (info_of i) (ty_of e)
+  | Wm ki k ei e => TMap (info_of ki) (ty_of k) (info_of ei) (ty_of e)
+  | Wo key fs => TObj (nat_of_int key) (fs_of fs)
+  | Wu n fs => TUnion n (fs_of fs)
+  | Wr id => TUser (nat_of_int id)
+  end
+with fs_of (w : wfs) : list (fld ty) :=
+  match w with
+  | FN => []
+  | FC n i t r => F n (info_of i) (ty_of t) :: fs_of r
+  end.
+
+Definition rt_of (w : wrt) : option rtinfo :=
+  match w with RN => None | RS ident ctype views => Some (RT ident ctype (nats_of views)) end.
+
+Fixpoint env_of (w : wenv) : env :=
+  match w with
+  | EN => []
+  | EC id name uid i t rt r => (nat_of_int id, UT name uid (info_of i) (ty_of t) (rt_of rt)) :: env_of r
+  end.
+
+(* ---- observed strings ---- *)
 
 (* little endian, 7 bytes per integer *)
 Fixpoint pack_chunks (bs : bytes) : list int :=
@@ -37,8 +100,20 @@ Fixpoint ints_eqb (a b : list int) : bool :=
   | _, _ => false
   end.
 
-Definition same_string (model : bytes) (obs : packed) : bool :=
-  Uint63.eqb (Uint63.of_Z (Z.of_nat (length model))) (plen obs) && ints_eqb (pack_chunks model) (pchunks obs).
+Definition same_string (model : bytes) (len : int) (chunks : ints) : bool :=
+  Uint63.eqb (Uint63.of_Z (Z.of_nat (length model))) len && ints_eqb (pack_chunks model) (ints_of chunks).
+
+Definition roll_of (bs : bytes) : int :=
+  fold_left (fun h b => (h * 1000003 + int_of_byte b)%uint63) bs 0%uint63.
+
+(* what the harness reports about the observed strings of a case, in order: the string
+   itself (OX); for a string of more than 512 bytes its length, a rolling checksum and
+   its first 511 bytes (OD); or that it is identical to the k-th string of the case (OR) *)
+Inductive wobs :=
+| ON
+| OX (len : int) (chunks : ints) (r : wobs)
+| OD (len : int) (roll : int) (plen : int) (prefix : ints) (r : wobs)
+| OR (k : int) (r : wobs).
 
 Definition all_flags : list flags :=
   [FL false false false; FL false false true; FL false true false; FL false true true;
@@ -48,47 +123,122 @@ Definition all_flags : list flags :=
    number of user types standing for the largest rank *)
 Definition run_fuel (E : env) (t : ty) : nat := fuel_bound E t (length E).
 
-(* what the harness reports about one observed string: the string itself; or, for a
-   string of more than 512 bytes, its length, a rolling checksum and its first 511
-   bytes; or that it is identical to an earlier string of the same case *)
-Inductive obs :=
-| X (p : packed)
-| D (len : int) (roll : int) (prefix : packed)
-| R (k : nat).
-
-Definition roll_of (bs : bytes) : int :=
-  fold_left (fun h b => (h * 1000003 + int_of_byte b)%uint63) bs 0%uint63.
-
-Definition same_obs (models : list (option bytes)) (model : option bytes) (o : obs) : bool :=
-  match model with
-  | None => false
-  | Some h =>
-    match o with
-    | X p => same_string h p
-    | D len roll prefix =>
-      Uint63.eqb (Uint63.of_Z (Z.of_nat (length h))) len && Uint63.eqb (roll_of h) roll
-      && same_string (firstn 511 h) prefix
-    | R k => match nth_error models k with Some (Some h') => beq h h' | _ => false end
-    end
-  end.
-
-Fixpoint all_same (models rest : list (option bytes)) (os : list obs) : bool :=
+Fixpoint all_same (models rest : list (option bytes)) (os : wobs) : bool :=
   match rest, os with
-  | [], [] => true
-  | m :: rest', o :: os' => same_obs models m o && all_same models rest' os'
+  | [], ON => true
+  | Some h :: rest', OX len chunks os' => same_string h len chunks && all_same models rest' os'
+  | Some h :: rest', OD len roll plen prefix os' =>
+    Uint63.eqb (Uint63.of_Z (Z.of_nat (length h))) len && Uint63.eqb (roll_of h) roll
+    && same_string (firstn 511 h) plen prefix && all_same models rest' os'
+  | Some h :: rest', OR k os' =>
+    match nth_error models (nat_of_int k) with Some (Some h') => beq h h' | _ => false end
+    && all_same models rest' os'
   | _, _ => false
   end.
 
 (* eight flag vectors of expr.Hash, then the Hash method of the type *)
-Definition hash_mismatches (cs : list (nat * env * ty * list obs)) : list nat :=
-  flat_map (fun c => match c with (i, E, t, os) =>
-     let fuel := run_fuel E t in
-     let models := map (fun fl => Hash fuel fl E t) (all_flags ++ [method_flags]) in
-     if all_same models models os then [] else [i] end) cs.
+Definition hash_ok (E : env) (t : ty) (os : wobs) : bool :=
+  let fuel := run_fuel E t in
+  let models := map (fun fl => Hash fuel fl E t) (all_flags ++ [method_flags]) in
+  all_same models models os.
 
-Definition equal_mismatches (cs : list (nat * env * ty * env * ty * bool)) : list nat :=
-  flat_map (fun c => match c with (i, E1, t1, E2, t2, eq) =>
+(* ---- shape of Dup's result ---- *)
+
+Fixpoint list_eqb {A} (eqb : A -> A -> bool) (a b : list A) : bool :=
+  match a, b with
+  | [], [] => true
+  | x :: a', y :: b' => eqb x y && list_eqb eqb a' b'
+  | _, _ => false
+  end.
+
+Definition meta_eqb (a b : meta) : bool :=
+  list_eqb (fun x y => beq (fst x) (fst y) && list_eqb beq (snd x) (snd y)) a b.
+
+Definition val_eqb (a b : option validation) : bool :=
+  match a, b with
+  | None, None => true
+  | Some x, Some y => list_eqb beq (v_required x) (v_required y) && beq (v_other x) (v_other y)
+  | _, _ => false
+  end.
+
+Definition ainfo_eqb (a b : ainfo) : bool :=
+  meta_eqb (a_meta a) (a_meta b) && val_eqb (a_val a) (a_val b) && beq (a_desc a) (a_desc b)
+  && Bool.eqb (a_docs a) (a_docs b) && beq (a_other a) (a_other b).
+
+Definition prim_eqb (a b : prim) : bool := beq (prim_name a) (prim_name b).
+
+Fixpoint ty_eqb (a b : ty) : bool :=
+  match a, b with
+  | TPrim p, TPrim q => prim_eqb p q
+  | TArr i e, TArr i' e' => ainfo_eqb i i' && ty_eqb e e'
+  | TMap ki k ei e, TMap ki' k' ei' e' => ainfo_eqb ki ki' && ty_eqb k k' && ainfo_eqb ei ei' && ty_eqb e e'
+  | TObj key fs, TObj key' fs' =>
+    Nat.eqb key key' &&
+    (fix go (l l' : list (fld ty)) : bool :=
+       match l, l' with
+       | [], [] => true
+       | f :: r, f' :: r' => beq (fname f) (fname f') && ainfo_eqb (finfo f) (finfo f') && ty_eqb (ftype f) (ftype f') && go r r'
+       | _, _ => false
+       end) fs fs'
+  | TUnion n vs, TUnion n' vs' =>
+    beq n n' &&
+    (fix go (l l' : list (fld ty)) : bool :=
+       match l, l' with
+       | [], [] => true
+       | f :: r, f' :: r' => beq (fname f) (fname f') && ainfo_eqb (finfo f) (finfo f') && ty_eqb (ftype f) (ftype f') && go r r'
+       | _, _ => false
+       end) vs vs'
+  | TUser id, TUser id' => Nat.eqb id id'
+  | _, _ => false
+  end.
+
+Definition rt_eqb (a b : option rtinfo) : bool :=
+  match a, b with
+  | None, None => true
+  | Some x, Some y => beq (rt_ident x) (rt_ident y) && beq (rt_ctype x) (rt_ctype y) && list_eqb Nat.eqb (rt_views x) (rt_views y)
+  | _, _ => false
+  end.
+
+Definition utdef_eqb (a b : utdef) : bool :=
+  beq (ut_name a) (ut_name b) && beq (ut_uid a) (ut_uid b) && ainfo_eqb (ut_info a) (ut_info b)
+  && ty_eqb (ut_type a) (ut_type b) && rt_eqb (ut_rt a) (ut_rt b).
+
+(* the observed user types of the copy are exactly the ones the model allocates *)
+Definition env_same (model obs : env) : bool :=
+  Nat.eqb (length model) (length obs) &&
+  forallb (fun p => match elookup (fst p) model with Some d => utdef_eqb d (snd p) | None => false end) obs.
+
+(* what Dup returned: the offsets that name fresh pointers, the user types reachable
+   from the copy and its root; DN: not observed for this case *)
+Inductive wdup := DN | DC (offu offk : int) (E' : wenv) (t' : wty).
+
+Definition dup_ok (E : env) (t : ty) (d : wdup) : bool :=
+  match d with
+  | DN => true
+  | DC offu offk E' t' =>
+    match Dup E (nat_of_int offu) (nat_of_int offk) (dup_fuel E t) t with
+    | Some (Em, tm) => ty_eqb tm (ty_of t') && env_same Em (env_of E')
+    | None => false
+    end
+  end.
+
+(* ---- cases ---- *)
+
+(* one graph: index, user types, root, observed strings, observed copy *)
+Inductive gcase := GC (idx : int) (E : wenv) (t : wty) (os : wobs) (d : wdup).
+
+Definition graph_mismatches (cs : list gcase) : list nat :=
+  flat_map (fun c => match c with GC i wE wt os d =>
+     let E := env_of wE in let t := ty_of wt in
+     if hash_ok E t os && dup_ok E t d then [] else [nat_of_int i] end) cs.
+
+(* one pair: index, two graphs, observed expr.Equal *)
+Inductive pcase := PC (idx : int) (E1 : wenv) (t1 : wty) (E2 : wenv) (t2 : wty) (eq : bool).
+
+Definition equal_mismatches (cs : list pcase) : list nat :=
+  flat_map (fun c => match c with PC i wE1 wt1 wE2 wt2 eq =>
+     let E1 := env_of wE1 in let t1 := ty_of wt1 in let E2 := env_of wE2 in let t2 := ty_of wt2 in
      match Equal (Nat.max (run_fuel E1 t1) (run_fuel E2 t2)) E1 t1 E2 t2 with
-     | Some b => if Bool.eqb b eq then [] else [i]
-     | None => [i]
+     | Some b => if Bool.eqb b eq then [] else [nat_of_int i]
+     | None => [nat_of_int i]
      end end) cs.
